@@ -31,6 +31,11 @@ Definition pre_ok (c : cworld) (o : cop) : bool :=
 Definition lrs_ok (w : world) (t : list (list (list Q))) : bool :=
   list_eqb (fun a ta => list_eqb (fun o lo => forallb (Qeq_bool (o_lr o)) lo) (a_opts a) ta) (w_pop w) t.
 
+(* every allocated cell of the initial store holds a content id that has been issued (hypothesis [fresh_ok] of
+   share_hidden_lost_always) *)
+Definition fresh_okb (s : store) : bool :=
+  forallb (fun l => N.ltb (rd s l) (s_fresh s)) (nseq 0 (N.to_nat (s_next s))).
+
 Fixpoint ccheck_steps (c : cworld) (ops : list cop) (os : list obs) (ls : list (list (list (list Q)))) (m : PositiveMap.t N) : bool :=
   match ops, os, ls with
   | [], [], [] => true
@@ -48,7 +53,7 @@ Fixpoint ccheck_steps (c : cworld) (ops : list cop) (os : list obs) (ls : list (
 Definition ccheck_run (w : world) (ops : list cop) (os : list obs) (ls : list (list (list (list Q)))) (nets opts : list str) : bool :=
   match os, ls with
   | o0 :: r, l0 :: lr =>
-      prefix_ok nets opts && sep_b w && lrs_ok w l0 &&
+      prefix_ok nets opts && sep_b w && fresh_okb (w_store w) && lrs_ok w l0 &&
       match state_ok w o0 (PositiveMap.empty N) with
       | Some m => ccheck_steps (mkCW w []) ops r lr m
       | None => false
